@@ -237,6 +237,9 @@ func parse_set_matches(tokens []*Token, token_index int) (AstSetBody, int, error
 	if err != nil {
 		return nil, next_index, err
 	}
+	if command == nil {
+		return nil, next_index, NewParseError(tokens[next_index], "Unexpected token. Expected 'find', 'replace', or 'set'.")
+	}
 	return &AstSetMatches{command}, next_index, err
 }
 
